@@ -299,6 +299,36 @@ def replay_concrete(pi, ki, global_repo, declared, given, project_root=False):
             REG.clear_language_registrations()
 
 
+def special_names_scenario():
+    """parameter names that coincide with names used inside textX's own signatures are names like any other"""
+    from textx import metamodel_from_str
+    from textx.exceptions import TextXError
+    problems = []
+    for name in ('source', 'name', 'kwargs', 'args', 'params', 'debug_'):
+        mm = metamodel_from_str(GRAMMAR)
+        mm.model_param_defs.add(name, 'declared')
+        try:
+            m = mm.model_from_str('item x item y -> x', **{name: 'v'})
+            if dict(m._tx_model_params) != {name: 'v'}:
+                problems.append('declared parameter %r: the model exposes %r' % (name, dict(m._tx_model_params)))
+        except TypeError as e:
+            if name in ('self', 'file_name', 'model_str'):
+                continue        # these ARE parameters of model_from_str itself: Python rejects the call
+            problems.append('declared parameter %r is rejected: TypeError: %s' % (name, e))
+        except Exception as e:  # noqa
+            problems.append('declared parameter %r is rejected: %s: %s' % (name, type(e).__name__, e))
+        mm2 = metamodel_from_str(GRAMMAR)
+        try:
+            mm2.model_from_str('item x', **{name: 'v'})
+            problems.append('undeclared parameter %r is accepted' % name)
+        except TextXError:
+            pass
+        except TypeError as e:
+            if name not in ('self', 'file_name', 'model_str'):
+                problems.append('undeclared parameter %r: TypeError instead of a TextXError: %s' % (name, e))
+    return problems
+
+
 def main():
     import textx.metamodel as MM
     import textx.model_params as MP
@@ -309,6 +339,7 @@ def main():
     items = [(pi, ki, gr, 20000, maxn) for pi in range(len(PROVIDERS)) for ki in range(len(KINDS))
              for gr in (False, True)]
     results = pmap(explore, items)
+    special = special_names_scenario()
     chk.cov['functions_encoded'] = src_hash(
         MP.ModelParamDefinitions.check_params, MP.ModelParamDefinitions.add, MP.ModelParams.__getitem__,
         MM.TextXMetaModel.model_from_str, MM.TextXMetaModel.model_from_file,
@@ -353,6 +384,9 @@ def main():
                                   % (what, detail))
         chk.sample({'provider': r['provider'], 'load': r['kind'], 'global_repository': r['global_repo'],
                     'equality_patterns': r['paths'], 'accepted': r['accepted'], 'rejected': r['rejected']})
+    for pr in special[:3]:
+        chk.violation(pr, {'special_names': True})
+    chk.cov['bounds']['special_names'] = "parameter names 'source', 'name', 'kwargs', ... declared / undeclared (concrete)"
     chk.cov['paths_explored'] = paths
     chk.cov['evaluations'] = paths
     chk.cov['distinct_nontrivial'] = accepted
@@ -362,5 +396,8 @@ def main():
 
 
 def replay(data):
+    if data.get('special_names'):
+        pr = special_names_scenario()
+        return bool(pr), pr[:3]
     return replay_concrete(data['provider'], data['kind'], data['global_repo'], data['declared'], data['given'],
                            data.get('project_root', False))
